@@ -1,6 +1,6 @@
 """Checks C01..C07 (pipeline A): command-line driver, parallel cell evaluation, known
 findings, replay files and evidence."""
-import os, sys, json, time, hashlib, traceback, collections, multiprocessing
+import os, sys, json, time, hashlib, traceback, collections, multiprocessing, re
 import z3
 from . import core, build, pipea
 from .core import Outcome, Unsupported, PathCtl, check_valid, neq_bytes, eval_bytes, bv, simp
@@ -667,6 +667,11 @@ def worker(job):
                 except Exception as ex:
                     out['inconclusive'].append((lang, 'front-end internal error (cell dropped from the claim): %s: %s' % (type(ex).__name__, str(ex)[:120])))
                 out['findings'].extend(f.as_dict() | {'sig': sig(f)} for f in res)
+    if prop == 'C01' and (tier == 'thorough' or sum(map(ord, pname)) % 5 == 0):
+        try:
+            out['fe_validation'] = validate_frontends(spec, e, fes)
+        except Exception as ex:
+            out['fe_validation'] = [{'lang': '*', 'error': 'validation driver failed: %s' % str(ex)[:150]}]
     if len(out['samples']) < 1:
         out['samples'].append({'program': pname, 'dsl': e['dsl'][:600], 'packets': [p.name for p in packets]})
     out['obligations'] = stats.obligations
@@ -674,6 +679,95 @@ def worker(job):
     out['xsamples'] = list(core.XSAMPLES)
     out['wall'] = time.time() - t0
     return out
+
+
+# ---------------------------------------------------------------------------- translator validation against native execution
+
+def random_model(asm, msg, seed):
+    """a model of the assumptions in which as many message leaves as possible carry pseudo-random values"""
+    import random
+    rnd = random.Random(seed)
+    leaves = []
+
+    def walk(v):
+        if isinstance(v, Msg):
+            for x in v.v.values():
+                walk(x)
+        elif isinstance(v, list):
+            for x in v:
+                walk(x)
+        elif z3.is_bv(v) and not z3.is_bv_value(v):
+            leaves.append(v)
+    walk(msg)
+    s = z3.Solver()
+    for a in asm:
+        s.add(a)
+    for v in leaves:
+        w = v.size()
+        r = rnd.choice(b'ABCDEFGHJKLMNPQRSTUVWXYZ23456789') if w == 8 else rnd.getrandbits(w)
+        if w in (32, 64) and rnd.random() < 0.3:
+            r = rnd.choice([0, 1, (1 << w) - 1, 1 << (w - 1), (1 << (w - 1)) - 1])
+        s.push()
+        s.add(v == r)
+        if s.check() != z3.sat:
+            s.pop()
+    return s.model() if s.check() == z3.sat else None
+
+
+def validate_frontends(spec, emit, fes):
+    """the translator is validated against the real thing: for the root packet and one pseudo-random concrete message the bytes
+    the front-end computes by interpreting the lowered emitted code must equal the bytes the emitted code produces when it is
+    compiled and run natively with the reference runtime (Python, Go, Java)"""
+    res = []
+    pk = spec.root()
+    if pk is None:
+        return res
+    sh = Shape(2, 2, sum(map(ord, spec.name)) % max(1, count_alts(spec, pk)))
+    asm = []
+    msg = build_msg(spec, pk, sh, pk.name, asm)
+    mdl = random_model(asm, msg, spec.name)
+    if mdl is None:
+        return res
+    cex = concretise(msg, mdl)
+    cmsg = cex_to_msg(spec, pk, cex)
+    data = eval_bytes(ref_enc(RefCtx(spec, cks_registered=False), pk, cmsg), _empty_model())
+    nmsg = msg_to_native(spec, pk, cex)
+    for lang in ('python', 'go', 'java'):
+        fe = fes.get(lang)
+        if fe is None:
+            continue
+        for op in ('encode', 'roundtrip'):
+            try:
+                if op == 'encode':
+                    r = list(PathCtl([]).explore(lambda c: fe.encode(c, pk, cmsg, False)[0]))
+                else:
+                    def rt(c):
+                        o, ridx = fe.decode(c, pk, [z3.BitVecVal(b, 8) for b in data], False)
+                        return fe.reencode(c, o, False), ridx
+                    r = list(PathCtl([]).explore(rt))
+                if len(r) != 1 or isinstance(r[0][0], Outcome):
+                    fe_res = {'error': str(r[0][0]) if r else 'no path'}
+                elif op == 'encode':
+                    fe_res = {'hex': eval_bytes(r[0][0], _empty_model()).hex()}
+                else:
+                    fe_res = {'hex': eval_bytes(r[0][0][0], _empty_model()).hex(), 'rest': len(data) - r[0][0][1]}
+            except (Unsupported, MissingMember):
+                continue
+            req = {'op': op, 'class': pk.name}
+            if op == 'encode':
+                req['msg'] = nmsg
+            else:
+                req['data'] = data.hex()
+            nat = NATIVE_RUN[lang](spec, emit, req)
+            if not nat or 'skipped' in nat or 'driver_error' in nat or 'build_error' in nat:
+                res.append({'lang': lang, 'op': op, 'skipped': str((nat or {}).get('skipped') or (nat or {}).get('driver_error') or (nat or {}).get('build_error'))[:160]})
+                continue
+            if 'error' in nat or 'error' in fe_res:
+                agree = ('error' in nat) == ('error' in fe_res)
+            else:
+                agree = nat.get('hex') == fe_res.get('hex') and (op == 'encode' or nat.get('rest') == fe_res.get('rest'))
+            res.append({'lang': lang, 'op': op, 'agree': agree, 'front_end': str(fe_res)[:140], 'native': str({k: nat[k] for k in ('hex', 'rest', 'error') if k in nat})[:140]})
+    return res
 
 
 # ---------------------------------------------------------------------------- native replay (Python target)
@@ -729,38 +823,163 @@ def msg_to_native(spec, packet, cex):
     return out
 
 
-def native_replay_python(spec, emit, rec):
-    """run the real emitted Python module with runtimes/python on the counterexample message; returns dict or None"""
+def _run_python(spec, emit, req):
     import subprocess, tempfile
-    cex = rec.get('cex')
-    if not isinstance(cex, dict) or 'key' in cex:
-        return None
     files = emit['files'].get('py', {})
     srcs = [p for rel, p in files.items() if rel.endswith('.py') and not rel.endswith('_test.py')]
-    pk = None
-    from .fe_py import all_packets
-    for q in all_packets(spec):
-        if q.name == rec['packet']:
-            pk = q
-    if not srcs or pk is None:
+    if not srcs:
         return None
-    try:
-        msg = cex_to_msg(spec, pk, cex)
-        want = eval_bytes(ref_enc(RefCtx(spec, cks_registered=False), pk, msg), z3.Solver().model() if False else _empty_model())
-        req = {'op': 'encode', 'class': pk.name, 'msg': msg_to_native(spec, pk, cex)}
-    except Exception as e:
-        return {'skipped': 'cannot rebuild the message: %s' % e}
+    if 'msg' in req:
+        req = dict(req, msg=_named(req['msg']))
     with tempfile.NamedTemporaryFile('w', suffix='.json', delete=False) as tf:
         json.dump(req, tf)
     try:
         r = subprocess.run(['python3', os.path.join(VERIF, 'runtimes', 'python', 'replay_driver.py'), srcs[0], tf.name], capture_output=True, text=True, timeout=30)
-        out = json.loads(r.stdout.strip().split('\n')[-1]) if r.stdout.strip() else {'exception': r.stderr[-200:]}
+        out = json.loads(r.stdout.strip().split('\n')[-1]) if r.stdout.strip() else {'driver_error': r.stderr[-200:]}
     except Exception as e:
-        out = {'exception': str(e)}
+        out = {'driver_error': str(e)}
     finally:
         os.unlink(tf.name)
+    if 'exception' in out:
+        out['error'] = out.pop('exception')
+    return out
+
+
+def _named(v):
+    return v
+
+
+def _positional(v):
+    """msg_to_native value with object fields by position ({"__packet":N,"fields":[...]}) for drivers without field names"""
+    if isinstance(v, dict) and '__packet' in v:
+        return {'__packet': v['__packet'], 'fields': [_positional(x) for k, x in v.items() if k != '__packet']}
+    if isinstance(v, list):
+        return [_positional(x) for x in v]
+    return v
+
+
+def _run_go(spec, emit, req):
+    import subprocess, shutil
+    files = emit['files'].get('go', {})
+    srcs = [p for rel, p in files.items() if rel.endswith('.go') and not rel.endswith('_test.go')]
+    if not srcs:
+        return None
+    if 'msg' in req:
+        req = dict(req, msg=_positional(req['msg']))
+    d = os.path.join(build.cache_dir(), 'native_go', '%s_%d' % (spec.name, os.getpid()))
+    shutil.rmtree(d, ignore_errors=True)
+    os.makedirs(os.path.join(d, 'p'))
+    try:
+        open(os.path.join(d, 'go.mod'), 'w').write(
+            'module fpverif\n\ngo 1.23\n\nrequire github.com/xinchentechnote/fin-proto-go v0.0.0\n\n'
+            'replace github.com/xinchentechnote/fin-proto-go => %s\n' % os.path.join(VERIF, 'runtimes', 'go'))
+        pkgname, types = None, []
+        for sp in srcs:
+            text = open(sp).read()
+            shutil.copy(sp, os.path.join(d, 'p', os.path.basename(sp)))
+            m = re.search(r'^package\s+(\w+)', text, re.M)
+            pkgname = pkgname or (m.group(1) if m else None)
+            types += re.findall(r'^type\s+(\w+)\s+struct\b', text, re.M)
+        tmpl = open(os.path.join(VERIF, 'runtimes', 'go', 'replay', 'zz_replay_test.go.tmpl')).read()
+        reg = '\n'.join('\t"%s": func() interface{} { return &%s{} },' % (t, t) for t in sorted(set(types)))
+        open(os.path.join(d, 'p', 'zz_replay_test.go'), 'w').write(tmpl.replace('__PKG__', pkgname or 'msg').replace('__REGISTRY__', reg))
+        json.dump(req, open(os.path.join(d, 'req.json'), 'w'))
+        env = dict(build.GOENV, ZZ_REQ=os.path.join(d, 'req.json'), ZZ_OUT=os.path.join(d, 'out.json'))
+        r = subprocess.run(['go', 'test', '-vet=off', '-count=1', '-run', 'TestZZReplay', './p/'], cwd=d, env=env, capture_output=True, text=True, timeout=300)
+        if os.path.exists(os.path.join(d, 'out.json')):
+            out = json.load(open(os.path.join(d, 'out.json')))
+        else:
+            out = {'build_error': (r.stdout + r.stderr)[-300:]}
+    except Exception as e:
+        out = {'driver_error': str(e)[:200]}
+    finally:
+        shutil.rmtree(d, ignore_errors=True)
+    if 'panic' in out:
+        out['error'] = 'panic: ' + str(out.pop('panic'))
+    return out
+
+
+def _valid_utf8(v):
+    if isinstance(v, dict):
+        if 'bytes' in v and len(v) == 1:
+            try:
+                bytes.fromhex(v['bytes']).decode('utf-8')
+                return True
+            except Exception:
+                return False
+        return all(_valid_utf8(x) for x in v.values())
+    if isinstance(v, list):
+        return all(_valid_utf8(x) for x in v)
+    return True
+
+
+def _run_java(spec, emit, req):
+    import subprocess, shutil
+    files = emit['files'].get('java', {})
+    srcs = [p for rel, p in files.items() if rel.endswith('.java') and not rel.startswith('test/') and '/test/' not in '/' + rel]
+    if not srcs:
+        return None
+    if 'msg' in req:
+        if not _valid_utf8(req['msg']):
+            return {'skipped': 'the message holds a byte string that is not UTF-8: a Java String cannot carry it'}
+        req = dict(req, msg=_positional(req['msg']))
+    cd = build.cache_dir()
+    rt = os.path.join(cd, 'java_rt')
+    d = os.path.join(cd, 'native_java', '%s_%d' % (spec.name, os.getpid()))
+    shutil.rmtree(d, ignore_errors=True)
+    os.makedirs(os.path.join(d, 'classes'))
+    try:
+        classes = []
+        for sp in srcs:
+            text = open(sp).read()
+            m = re.search(r'^package\s+([\w.]+)\s*;', text, re.M)
+            pkg = (m.group(1) + '.') if m else ''
+            classes += [pkg + c for c in re.findall(r'^public\s+(?:final\s+)?class\s+(\w+)', text, re.M)]
+        shutil.copy(os.path.join(VERIF, 'runtimes', 'java', 'replay', 'ZZReplay.java.txt'), os.path.join(d, 'ZZReplay.java'))
+        r = subprocess.run(['javac', '-nowarn', '-proc:none', '-cp', rt, '-d', os.path.join(d, 'classes')] + srcs + [os.path.join(d, 'ZZReplay.java')],
+                           capture_output=True, text=True, timeout=300)
+        if r.returncode != 0:
+            out = {'build_error': r.stderr[-300:]}
+        else:
+            json.dump(dict(req, classes=classes), open(os.path.join(d, 'req.json'), 'w'))
+            r = subprocess.run(['java', '-cp', os.path.join(d, 'classes') + os.pathsep + rt, 'ZZReplay', os.path.join(d, 'req.json'), os.path.join(d, 'out.json')],
+                               capture_output=True, text=True, timeout=120)
+            out = json.load(open(os.path.join(d, 'out.json'))) if os.path.exists(os.path.join(d, 'out.json')) else {'driver_error': (r.stdout + r.stderr)[-300:]}
+    except Exception as e:
+        out = {'driver_error': str(e)[:200]}
+    finally:
+        shutil.rmtree(d, ignore_errors=True)
+    return out
+
+
+NATIVE_RUN = {'python': _run_python, 'go': _run_go, 'java': _run_java}
+
+
+def native_replay(lang, spec, emit, rec):
+    """run the REAL emitted encoder, compiled natively against the reference runtime, on the counterexample message.
+    returns dict with confirmed = True (native bytes differ from the reference / native failure), False (native bytes ARE the
+    reference: the finding was produced by our model, it is not reported) or None (the replay could not run)"""
+    cex = rec.get('cex')
+    if not isinstance(cex, dict) or 'key' in cex or lang not in NATIVE_RUN:
+        return None
+    pk = [q for q in all_packets(spec) if q.name == rec['packet']]
+    if not pk:
+        return None
+    pk = pk[0]
+    try:
+        msg = cex_to_msg(spec, pk, cex)
+        want = eval_bytes(ref_enc(RefCtx(spec, cks_registered=False), pk, msg), _empty_model())
+        req = {'op': 'encode', 'class': pk.name, 'msg': msg_to_native(spec, pk, cex)}
+    except Exception as e:
+        return {'skipped': 'cannot rebuild the message: %s' % e, 'confirmed': None}
+    out = NATIVE_RUN[lang](spec, emit, req)
+    if out is None:
+        return None
     out['reference_hex'] = want.hex()
-    out['confirmed'] = ('exception' in out) or (out.get('hex') != want.hex())
+    if 'driver_error' in out or 'build_error' in out or 'skipped' in out:
+        out['confirmed'] = None
+    else:
+        out['confirmed'] = ('error' in out) or (out.get('hex') != want.hex())
     return out
 
 
@@ -768,6 +987,8 @@ def _empty_model():
     s = z3.Solver()
     s.check()
     return s.model()
+
+
 
 
 # ---------------------------------------------------------------------------- main
@@ -805,6 +1026,14 @@ def main(prop, tier, update_known=False):
     funcs = collections.Counter()
     samples = []
     protoc_rejects = []
+    fev = collections.Counter()
+    fev_bad = []
+    for r in results:
+        for v in r.get('fe_validation') or []:
+            k = 'skipped' if 'skipped' in v or 'error' in v else ('agree' if v.get('agree') else 'disagree')
+            fev[(v['lang'] + '/' + v.get('op', '-'), k)] += 1
+            if k == 'disagree':
+                fev_bad.append([r['prog'], v['lang'], v.get('front_end'), v.get('native')])
     xs = []
     for r in results:
         xs.extend(r.get('xsamples') or [])
@@ -869,14 +1098,14 @@ def main(prop, tier, update_known=False):
         rec = dict(f)
         rec['dsl'] = emits[f['program']]['dsl'] if f['program'] in emits else None
         rec['cells_affected'] = len(fs)
-        if f.get('lang') == 'python' and prop in ('C01', 'C04', 'C06') and f['program'] in byprog and 'unregistered' not in s and 'registered' not in s:
-            nat = native_replay_python(byprog[f['program']], emits[f['program']], f)
+        if f.get('lang') in NATIVE_RUN and prop in ('C01', 'C04', 'C06') and f['program'] in byprog and 'unregistered' not in s and 'registered' not in s and 'absent-target' not in s:
+            nat = native_replay(f['lang'], byprog[f['program']], emits[f['program']], f)
             if nat is not None:
                 rec['native_replay'] = nat
                 if nat.get('confirmed') is False:
                     unconfirmed.append(s)
                     rec['unconfirmed'] = True
-        rec['confirmation'] = 'counterexample re-evaluated concretely by the front-end' + ('; natively replayed (python runtime)' if rec.get('native_replay') else '')
+        rec['confirmation'] = 'counterexample re-evaluated concretely by the front-end' + ('; natively replayed (%s runtime)' % f.get('lang') if rec.get('native_replay') else '')
         if rec.get('unconfirmed'):
             # the real emitted module produces the reference bytes for this message: encoder/stub defect of ours, never an alarm
             print('UNCONFIRMED (not reported): %s' % s)
@@ -902,6 +1131,8 @@ def main(prop, tier, update_known=False):
             'missing_member_cells': len(missing), 'protoc_rejected_programs': [p for p, _ in protoc_rejects],
             'known_findings_seen': len(knowns), 'new_findings': nviol, 'unconfirmed_counterexamples': unconfirmed[:10],
             'cross_solver_diff': xres,
+            'frontend_validation_vs_native': {'what': 'root packet, one pseudo-random concrete message per program: bytes computed by the front-end from the lowered emitted code vs bytes produced by the emitted code compiled and run natively with the reference runtime',
+                                              'counts': {'%s:%s' % k: v for k, v in sorted(fev.items())}, 'disagreements': fev_bad[:8]},
         },
         'assumptions': ASSUMPTIONS, 'wall_s': round(wall, 1), 'violations': nviol,
     }
@@ -909,6 +1140,10 @@ def main(prop, tier, update_known=False):
     json.dump(ev, open(os.path.join(VERIF, 'evidence', prop + '.json'), 'w'), indent=1, default=str)
     print('%s %s: programs=%d cells=%d queries=%d unsat=%d sat=%d unknown=%d known=%d new=%d inconclusive=%d wall=%.1fs' % (
         prop, tier, len(sel), cells, total.queries, total.unsat, total.sat, total.unknown, len(knowns), nviol, len(incon), wall))
+    if fev:
+        print('FRONTEND-VALIDATION: %s' % ', '.join('%s:%s=%d' % (k[0], k[1], v) for k, v in sorted(fev.items())))
+        for b in fev_bad[:5]:
+            print('  front-end disagrees with the native run (cells of this language are not trustworthy for this program): %s' % b)
     if xbad:
         print('TOOL-ERROR: %d sampled obligations are decided differently by another solver: %s' % (xbad, xres))
         return 3
